@@ -20,8 +20,9 @@ META = {
   "crash = SIGKILL before a symbolic one of the process' IPC system calls or while idle: later calls of that process are no-ops (ECANCELED), "
   "the kernel closes its handles, names persist",
   "nested-atomic emulation (hist*_preempt): at the entry of sem_wait/sem_post of one process the other process may run one whole acquire/release (depth 1)",
+  "initval_*: init_val is a fully symbolic pint; negative values are the documented invalid argument (NULL); histories draw init from 0..VMAX",
   "allocator never fails (C18), no EINTR (C19), printf empty"],
- "outside": ["kernel semantics themselves (model trusted)", "psemaphore-sysv.c (not built on this platform)", "more than 2 processes / 3 handles / 2 names",
+ "outside": ["kernel semantics themselves (model trusted; SEM_VALUE_MAX = INT_MAX as on this platform)", "psemaphore-sysv.c (not built on this platform)", "more than 2 processes / 3 handles / 2 names",
              "histories longer than the stated number of calls", "counter values above VMAX+2",
              "concurrent p_semaphore_new / p_semaphore_free interleavings (the property quantifies interleavings of acquirers/releasers; creation races of the "
              "lock semaphore are covered under C07 race_*)",
@@ -31,10 +32,11 @@ MANIFEST = {
  "level_text": "Bounded model checking of the real psemaphore-posix.c over an executable kernel model with two emulated processes: every history of N API calls "
                "(new OPEN/CREATE with any initial value, acquire, release, take_ownership, free) over 2 names x 3 handles is compared by the SAT solver, after every call, "
                "with a per-name generation-counter reference (name linked iff it should exist, published counter value, blocking only without units); a SIGKILL of a "
-               "process before any of its system calls is followed by the documented recovery, which must end with a fresh counter. The rules only differ from a trivial "
+               "process before any of its system calls is followed by the documented recovery, which must end with a fresh counter; the initial value is additionally decided for ALL 2^32 pint values "
+               "(fresh counter holds exactly the given value, a later OPEN with any other value sees it unchanged). The rules only differ from a trivial "
                "implementation on histories where the name already exists - exactly the histories the unit tests avoid - and the state space is small enough to decide exhaustively within the bound.",
  "level_note": "Trusted: CBMC 6.11 + SAT back end; kernel model (POSIX semantics, 2 processes); key stub (real SHA-1 key function decided separately on the same names). "
-               "Bounds: <=5 (quick) / <=6 (thorough) calls, 2 names, 3 handles, initial values 0..2/3, preemption depth 1 for acquire/release, crash at any of <=12 system calls.",
+               "Bounds: <=5 (quick) / <=6 (thorough) calls, 2 names, 3 handles, initial values 0..2/3 in histories and all 2^32 values in initval_*, preemption depth 1 for acquire/release, crash at any of <=12 system calls.",
  "technique": "CBMC bounded symbolic execution of real units vs. generation-counter reference over a POSIX IPC kernel model; symbolic crash switch; nested-atomic emulation",
  "design_ref": "DESIGN.md §3 C06",
 }
@@ -43,7 +45,7 @@ def hist(n, nh, preempt=False, kfdemo=False, vmax=2, timeout=1500):
     if preempt: defs.append("PREEMPT")
     if kfdemo: defs.append("KF_DEMO_CREATE_EXISTING")
     return Q("hist%d_h%d%s%s" % (n, nh, "_preempt" if preempt else "", "_kfdemo" if kfdemo else ""), "harness/C06_hist.c",
-             units=SEM_UNITS, models=KM, defs=defs, includes=REDIR, unwindset=dict(UW, **{"harness.0": n + 1}), timeout=timeout, funcs=FUNCS,
+             units=SEM_UNITS, models=KM, hdefs=defs, includes=REDIR, unwindset=dict(UW, **{"harness.0": n + 1}), timeout=timeout, funcs=FUNCS,
              kf="C06_create_existing" if kfdemo else None,
              bounds={"calls": n, "names": 2, "handles": nh, "processes": 2, "init_values": "0..%d" % vmax,
                      "preemption_depth": 1 if preempt else 0})
@@ -53,10 +55,14 @@ def realkey():
              bounds={"names": "a/b x sem/shm suffix + the two derived lock-semaphore names (concrete)"})
 def crash(pcalls):
     return Q("crash_recovery_p%d" % pcalls, "harness/C06_crash.c", units=SEM_UNITS, models=KM,
-             defs=["PCALLS=%d" % pcalls, "VK_NSEM=%d" % (pcalls + 4), "VK_NSEMH=%d" % (pcalls + 5)], includes=REDIR,
+             hdefs=["PCALLS=%d" % pcalls, "VK_NSEM=%d" % (pcalls + 4), "VK_NSEMH=%d" % (pcalls + 5)], includes=REDIR,
              unwindset=dict(UW, **{"harness.0": pcalls + 1}), timeout=900, funcs=FUNCS,
              bounds={"calls_of_killed_process": pcalls, "crash_point": "before any of its <=12 system calls, or idle", "name_preexists": "symbolic"})
+def initval(existing):
+    return Q("initval_any_int" + ("_create_on_existing" if existing else "_fresh_name"), "harness/C06_initval.c", units=SEM_UNITS, models=KM,
+             hdefs=["ON_EXISTING"] if existing else [], includes=REDIR, unwindset=UW, timeout=600, funcs=FUNCS,
+             bounds={"init_val": "all 2^32 pint values (symbolic)", "later_open_init_val": "all 2^32 values", "modes": "CREATE, OPEN" if not existing else "CREATE on an existing name"})
 def queries(tier):
     if tier == "quick":
-        return [realkey(), crash(3), hist(5, 3), hist(4, 3, preempt=True), hist(3, 2, kfdemo=True)]
-    return [realkey(), crash(4), hist(6, 3, vmax=3, timeout=3000), hist(5, 3, preempt=True, timeout=3000), hist(3, 2, kfdemo=True)]
+        return [realkey(), initval(False), initval(True), crash(3), hist(5, 3), hist(4, 3, preempt=True), hist(3, 2, kfdemo=True)]
+    return [realkey(), initval(False), initval(True), crash(4), hist(6, 3, vmax=3, timeout=3000), hist(5, 3, preempt=True, timeout=3000), hist(3, 2, kfdemo=True)]
